@@ -967,17 +967,6 @@ func (this *encodingTask) encode(res *encodingTaskResult) {
 		evt := kanzi.NewEvent(kanzi.EVT_AFTER_ENTROPY, int(this.currentBlockID),
 			int64((written+7)>>3), checksum, hashType, time.Now())
 		notifyListeners(this.listeners, evt)
-
-		if v, hasKey := this.ctx["verbosity"]; hasKey {
-			blockOffset := this.obs.Written()
-
-			if v.(uint) > 4 {
-				msg := fmt.Sprintf("{ \"type\":\"%s\", \"id\":%d, \"offset\":%d, \"skipFlags\":%.8b }",
-					"BLOCK_INFO", int(this.currentBlockID), blockOffset, skipFlags)
-				evt1 := kanzi.NewEventFromString(kanzi.EVT_BLOCK_INFO, int(this.currentBlockID), msg, time.Now())
-				notifyListeners(this.listeners, evt1)
-			}
-		}
 	}
 
 	// Lock free synchronization
@@ -1000,6 +989,21 @@ func (this *encodingTask) encode(res *encodingTaskResult) {
 	}
 
 	verifAt(VERIF_ENC, VERIF_IO_BEGIN, this.currentBlockID, this.processedBlockID)
+
+	if len(this.listeners) > 0 {
+		if v, hasKey := this.ctx["verbosity"]; hasKey {
+			// The shared bitstream can only be queried by the task holding the token:
+			// this is the offset at which this block is about to be written.
+			blockOffset := this.obs.Written()
+
+			if v.(uint) > 4 {
+				msg := fmt.Sprintf("{ \"type\":\"%s\", \"id\":%d, \"offset\":%d, \"skipFlags\":%.8b }",
+					"BLOCK_INFO", int(this.currentBlockID), blockOffset, skipFlags)
+				evt1 := kanzi.NewEventFromString(kanzi.EVT_BLOCK_INFO, int(this.currentBlockID), msg, time.Now())
+				notifyListeners(this.listeners, evt1)
+			}
+		}
+	}
 
 	// Emit block size in bits (max size pre-entropy is 1 GB = 1 << 30 bytes)
 	lw := uint(3)
